@@ -9,6 +9,13 @@
 #include <frg/macros.hpp>
 #include <frg/tuple.hpp>
 
+#ifdef FRG_VERIF_HOOKS
+#include <frg/verif_hooks.hpp>
+#endif
+#ifndef FRG_VERIF_POINT
+#define FRG_VERIF_POINT(site, obj, v) do { } while(0)
+#endif
+
 namespace frg FRG_VISIBILITY {
 
 template<typename T, typename Allocator>
@@ -94,6 +101,7 @@ public:
 	rcu_radixtree &operator= (const rcu_radixtree &) = delete;
 
 	T *find(uint64_t k) {
+		FRG_VERIF_POINT("radix.find.load_root", this, k);
 		auto n = _root.load(std::memory_order_acquire);
 		while(true) {
 			if(!n)
@@ -104,12 +112,14 @@ public:
 			auto idx = idx_of(k, n->depth);
 			if(n->depth == ll) {
 				auto cn = static_cast<entry_node *>(n);
+				FRG_VERIF_POINT("radix.find.load_mask", cn, k);
 				auto mask = cn->mask.load(std::memory_order_acquire);
 				if(!(mask & (uint16_t(1) << idx)))
 					return nullptr;
 				return std::launder(reinterpret_cast<T *>(cn->entries[idx].buffer));
 			}else{
 				auto cn = static_cast<link_node *>(n); 
+				FRG_VERIF_POINT("radix.find.load_link", cn, k);
 				n = cn->links[idx].load(std::memory_order_acquire);
 			}
 		}
@@ -119,6 +129,7 @@ public:
 	tuple<T *, bool> find_or_insert(uint64_t k, Args &&... args) {
 		// p will be the node that we insert into.
 		link_node *p = nullptr;
+		FRG_VERIF_POINT("radix.insert.load_root", this, k);
 		node *s = _root.load(std::memory_order_acquire);
 		while(true) {
 			// First case: We insert a last-level node into an inner node.
@@ -132,6 +143,7 @@ public:
 
 				auto entry = new (n->entries[idx_of(k, ll)].buffer) T{std::forward<Args>(args)...};
 
+				FRG_VERIF_POINT("radix.insert.publish_leaf", n, k);
 				if(p) {
 					auto cp = static_cast<link_node *>(p);
 					cp->links[idx_of(k, p->depth)].store(n, std::memory_order_release);
@@ -175,6 +187,7 @@ public:
 				r->links[idx_of(s->prefix, d)].store(s, std::memory_order_relaxed);
 //				std::cout << "idx: " << idx_of(k, d) << " and " << idx_of(s->prefix, d) << std::endl;
 
+				FRG_VERIF_POINT("radix.insert.publish_inner", r, k);
 				if(p) {
 					auto cp = static_cast<link_node *>(p);
 					cp->links[idx_of(k, p->depth)].store(r, std::memory_order_release);
@@ -189,17 +202,21 @@ public:
 			if(s->depth == ll) {
 //				std::cout << "Case 3" << std::endl;
 				auto cs = static_cast<entry_node *>(s);
+				FRG_VERIF_POINT("radix.insert.load_mask", cs, k);
 				auto mask = cs->mask.load(std::memory_order_acquire);
 				if(mask & (uint16_t(1) << idx))
 					return {std::launder(reinterpret_cast<T *>(cs->entries[idx].buffer)), false};
 
+				FRG_VERIF_POINT("radix.insert.construct_value", cs, k);
 				auto entry = new (cs->entries[idx].buffer) T{std::forward<Args>(args)...};
 
+				FRG_VERIF_POINT("radix.insert.publish_mask", cs, k);
 				cs->mask.store(mask | (uint16_t(1) << idx), std::memory_order_release);
 				return {entry, true};
 			}else{
 				auto cs = static_cast<link_node *>(s);
 				p = cs;
+				FRG_VERIF_POINT("radix.insert.load_link", cs, k);
 				s = static_cast<node *>(cs->links[idx].load(std::memory_order_acquire));
 			}
 		}
@@ -213,6 +230,7 @@ public:
 	}
 
 	void erase(uint64_t k) {
+		FRG_VERIF_POINT("radix.erase.load_root", this, k);
 		auto n = _root.load(std::memory_order_acquire);
 		while(true) {
 			FRG_ASSERT(n);
@@ -224,6 +242,7 @@ public:
 				auto mask = cn->mask.load(std::memory_order_acquire);
 				FRG_ASSERT(mask & (uint16_t(1) << idx));
 
+				FRG_VERIF_POINT("radix.erase.store_mask", cn, k);
 				cn->mask.store(mask & ~(uint16_t(1) << idx), std::memory_order_release);
 				return;
 			}else{
